@@ -111,11 +111,31 @@ def reaction_cases(ctx):
 
     e2e.quiet()
 
-    def boom(event):
-        raise RuntimeError("scripted intervention failure")
+    # the kind of exception must not matter (a handler may raise anything), nor where in a generator handler it is raised
+    EXCS = [RuntimeError, TypeError, KeyError, AttributeError, ValueError, ZeroDivisionError, LookupError]
+    plan = []
+    for name in ("EVT_C_ECHO", "EVT_C_STORE", "EVT_C_FIND", "EVT_USER_ID", "EVT_ASYNC_OPS", "EVT_SOP_EXTENDED", "EVT_SOP_COMMON"):
+        for exc in (EXCS if not ctx.quick else [ctx.rng.choice(EXCS)]):
+            plan.append((name, exc, "call"))
+    for exc in (EXCS if not ctx.quick else [TypeError, ctx.rng.choice(EXCS)]):
+        plan.append(("EVT_C_FIND", exc, "after-yield"))
+        plan.append(("EVT_C_FIND", exc, "before-yield"))
 
     out = []
-    for name in ("EVT_C_ECHO", "EVT_C_STORE", "EVT_C_FIND", "EVT_USER_ID", "EVT_ASYNC_OPS", "EVT_SOP_EXTENDED", "EVT_SOP_COMMON"):
+    for name, exc_type, where in plan:
+        def boom(event, exc_type=exc_type):
+            raise exc_type("scripted intervention failure")
+
+        def boom_gen(event, exc_type=exc_type, where=where):
+            if where == "after-yield":
+                ds = Dataset()
+                ds.QueryRetrieveLevel, ds.PatientName = "PATIENT", "X"
+                yield 0xFF00, ds
+            raise exc_type("scripted intervention failure")
+            yield  # noqa
+
+        if where != "call":
+            boom = boom_gen
         ae = AE()
         ae.acse_timeout = ae.dimse_timeout = ae.network_timeout = 2
         for cx in (Verification, CTImageStorage, PatientRootQueryRetrieveInformationModelFind):
@@ -176,7 +196,7 @@ def reaction_cases(ctx):
                 observed = "not-established"
             if assoc.is_established:
                 assoc.release()
-            out.append((name, observed, list(errs)))
+            out.append((name, observed, list(errs), exc_type.__name__, where))
         finally:
             threading.excepthook = old
             srv.shutdown()
@@ -256,14 +276,14 @@ def run(ctx):
             ctx.fail("e2e:thread-died-with-raising-handlers", f"{died} (script {sc})", case)
     # (3) documented reactions of intervention events
     obs = reaction_cases(ctx)
-    exp = ctx.lean([["reaction", n] for n, _, _ in obs])
-    for (name, observed, errs), e in zip(obs, exp):
-        case = ["reaction", name]
-        ctx.case(case, kind="reaction")
+    exp = ctx.lean([["reaction", o[0]] for o in obs])
+    for (name, observed, errs, exc_name, where), e in zip(obs, exp):
+        case = ["reaction", name, exc_name, where]
+        ctx.case(case, kind=f"reaction:{where}")
         if observed != e:
-            ctx.fail(f"intervention-reaction:{name}", f"raising {name} handler: observed {observed}, documented {e}", case)
+            ctx.fail(f"intervention-reaction:{name}", f"{name} handler raising {exc_name} ({where}): observed {observed}, documented {e}", case)
         if errs:
-            ctx.fail(f"intervention-exception-escapes:{name}", f"thread died: {errs}", case)
+            ctx.fail(f"intervention-exception-escapes:{name}", f"thread died: {errs} ({exc_name}, {where})", case)
 
 
 def replay(ctx, case):
